@@ -1,5 +1,5 @@
 #!/usr/bin/env python3
-"""tools/seed_prompt.py <PROP> <round>  — prints the brief handed to an independent seeding sub-agent.
+"""tools/seed_prompt.py <PROP> <round> [n=3]  — prints the brief handed to an independent seeding sub-agent.
 
 The brief holds ONLY the text of the property (from properties.jsonl), the path of the agent's own scratch worktree, and
 one-line summaries of the changes kept in earlier rounds (so that it does not repeat them).  Nothing about the checks."""
@@ -8,6 +8,9 @@ from pathlib import Path
 
 V = Path(__file__).resolve().parent.parent
 prop, rnd = sys.argv[1], sys.argv[2]
+N = int(sys.argv[3]) if len(sys.argv) > 3 else 3
+MS = ", ".join(f"m{i}" for i in range(1, N + 1))
+MD = ", ".join(f"{{out}}/m{i}/" for i in range(1, N + 1))
 P = None
 for l in open(V / "properties.jsonl"):
     d = json.loads(l)
@@ -35,12 +38,12 @@ The semantic property under study ({prop}): "{P['title']}"
 Where the property lives in the code (anchors):
 {json.dumps(P['anchors'], indent=1)}
 
-YOUR TASK: write up to 3 independent changes to joblib (m1, m2, m3 — each a separate patch against the clean worktree) that each BREAK this property while
+YOUR TASK: write up to {N} independent changes to joblib ({MS} — each a separate patch against the clean worktree) that each BREAK this property while
  (a) the code still imports and the existing test-suite still passes — at the very least every test module that touches the files you changed; run them, e.g. `cd {wt} && /venv/bin/python -m pytest -q -p no:cacheprovider -x joblib/test/test_<module>.py` (the full suite takes ~10 min; run the relevant modules);
  (b) the change looks like something a developer would plausibly do: a refactoring, a micro-optimisation, a "simplification", a clean-up, a reordering of two statements, a narrowed/widened exception clause, a cache added, a lock scope changed ... with a plausible rationale in a comment or the meta. No `if x == 42` special-casing, no deliberately planted backdoors;
- (c) the breakage needs something SPECIFIC to manifest — a particular interleaving of threads/processes, a crash or fault at a particular point, a multi-step sequence of operations, an unusual (but valid) input, a specific configuration, or TWO cooperating sites that each look fine alone — rather than something ordinary use (or the existing tests) would expose at once. Prefer subtle over blatant; prefer changes in DIFFERENT mechanisms/anchors of the property for m1, m2, m3.
+ (c) the breakage needs something SPECIFIC to manifest — a particular interleaving of threads/processes, a crash or fault at a particular point, a multi-step sequence of operations, an unusual (but valid) input, a specific configuration, or TWO cooperating sites that each look fine alone — rather than something ordinary use (or the existing tests) would expose at once. Prefer subtle over blatant; prefer changes in DIFFERENT mechanisms/anchors of the property for {MS}.
 
-For each change deliver, in {out}/m1/, {out}/m2/, {out}/m3/:
+For each change deliver, in {MD.format(out=out)}:
  - patch.diff : `git -C {wt} diff` of the change (must apply with `git apply` to a clean checkout of the pinned commit);
  - demo.py    : a self-contained demonstration program for {interp}: exits 0 on the CLEAN tree and non-zero WITH the patch, deterministically (force the needed interleaving/crash with events, monkeypatched hooks, custom backends, subprocess kills ... rather than hoping for timing; a few retries are fine if something is inherently racy); runs in under 60 s; imports joblib from PYTHONPATH (it will be run as `cd <worktree> && PYTHONPATH=<worktree> <interpreter> demo.py`); if it needs the worktree path use the literal `{wt}`; it must print what it observed;
  - meta.json  : {{"summary": what the change does and its plausible rationale, "violated_clause": which part of the property breaks and how, "needs": what is needed for it to manifest, "files": [changed files], "tests_run": exact commands and results}}.
@@ -49,4 +52,4 @@ Confirm yourself: demo exit 0 on clean tree (after `git -C {wt} checkout -- .`),
 Do NOT repeat these ideas, which were already used in earlier rounds:
 {chr(10).join(earlier) if earlier else '(none)'}
 
-Final answer: for each of m1..m3 one paragraph (what, why it is subtle, what it needs, the test/demos results). If you could only produce fewer than 3 that meet (a)-(c), deliver those and say so.""")
+Final answer: for each of {MS} one paragraph (what, why it is subtle, what it needs, the test/demos results). If you could only produce fewer than {N} that meet (a)-(c), deliver those and say so.""")
